@@ -25,7 +25,6 @@ _EXACT = {
     complex: "complex",
     str: "str",
 }
-_NARROW = (np.uint8, np.int32, np.float32)   # arithmetic on these is numpy's business, not the attribute's
 
 
 def category(x):
